@@ -165,17 +165,30 @@ func runErrpred(c *Ctx) {
 	// the executor's Result holds exactly what the reflective call returned
 	if exec := p.MustRole("executor"); exec != nil {
 		ok := false
+		rewritten := ""
 		p.RegionInstrs(exec, func(in ssa.Instruction) {
 			if st, isSt := in.(*ssa.Store); isSt {
 				if fr, isF := core.AsFieldAddr(st.Addr); isF && fr.Owner == "Result" && fr.Field == "out" {
 					if cl, isC := st.Val.(*ssa.Call); isC && core.CalleeName(cl.Common()) == core.RVCall {
 						ok = true
+						// … and none of its elements is replaced on the way (an error wrapped with the function's name is
+						// no longer the error the function returned)
+						for _, ref := range *cl.Referrers() {
+							if ia, isIA := ref.(*ssa.IndexAddr); isIA {
+								for _, r2 := range *ia.Referrers() {
+									if st2, isSt2 := r2.(*ssa.Store); isSt2 && st2.Addr == ssa.Value(ia) {
+										ok = false
+										rewritten = p.InstrPos(st2)
+									}
+								}
+							}
+						}
 					}
 				}
 			}
 		})
 		c.R.Add("RESULTLIT", "executor|out-is-raw-call-result", "executor", p.Pos(exec.Pos()), ok,
-			"the executor's Result carries exactly the slice returned by the reflective call (unfiltered, in order)", fmt.Sprintf("ok=%v", ok))
+			"the executor's Result carries exactly the slice returned by the reflective call (unfiltered, in order, no element replaced)", ternary(rewritten == "", fmt.Sprintf("ok=%v", ok), "an element of the returned slice is overwritten at "+rewritten))
 		// the value returned after the call is that Result (not a derived one)
 		retOK := true
 		rv := c.oneSite("RESULTLIT", "executor", "reflect.Value.Call", p.RegionCalls(exec, core.RVCall))
@@ -416,13 +429,19 @@ func runErrpred(c *Ctx) {
 		c.R.Add("LEN", "hasError|predicate", core.FuncName(lenM), p.Pos(lenM.Pos()), false, "Len's decrement is guarded by an in-package final-error predicate", "predicate not found")
 	}
 	// Out(i) = out[i].Interface()
-	outOK := false
+	outOK := len(core.Returns(outM)) > 0
 	for _, r := range core.Returns(outM) {
-		if cl, ok := r.Results[0].(*ssa.Call); ok && core.CalleeName(cl.Common()) == "(reflect.Value).Interface" {
-			if ld, ok := cl.Common().Args[0].(*ssa.UnOp); ok {
-				if ia, ok := ld.X.(*ssa.IndexAddr); ok && ia.Index == ssa.Value(outM.Params[1]) && strings.HasSuffix(core.Path(ia.X), ".out") {
-					outOK = true
+		for _, rv := range core.Sources(r.Results[0]) {
+			one := false
+			if cl, ok := rv.(*ssa.Call); ok && core.CalleeName(cl.Common()) == "(reflect.Value).Interface" {
+				if ld, ok := cl.Common().Args[0].(*ssa.UnOp); ok {
+					if ia, ok := ld.X.(*ssa.IndexAddr); ok && ia.Index == ssa.Value(outM.Params[1]) && strings.HasSuffix(core.Path(ia.X), ".out") {
+						one = true
+					}
 				}
+			}
+			if !one {
+				outOK = false // every way out returns the raw output, whatever it holds (zero values included)
 			}
 		}
 	}
